@@ -1,6 +1,7 @@
 package props
 
 import (
+	"context"
 	"errors"
 	"fmt"
 	"io"
@@ -166,7 +167,7 @@ func (i *inactProbe) HandleInactive(ctx netty.InactiveContext, ex netty.Exceptio
 }
 
 var c07Shapes = []string{"none", "forwards", "swallows", "two"}
-var c07States = []string{"open", "closing", "closed"}
+var c07States = []string{"open", "closing", "closed", "open-parent-context-ended"}
 
 type c07Cell struct {
 	n, pos      int
@@ -206,6 +207,9 @@ func c07Cells() []c07Cell {
 						for _, state := range c07States {
 							if ke[0] == "active" && state != "open" {
 								continue
+							}
+							if state == "open-parent-context-ended" && ke[1] == "read-loop" {
+								continue // the read loop would notice the ended context by itself
 							}
 							for m := 0; m < 2; m++ {
 								mode := mon.Sync
@@ -348,7 +352,15 @@ func c07Build(cell c07Cell, extra ...netty.Handler) (*mon.Rig, []*fprobe, []*exc
 	if cell.state == "closing" {
 		plan = []mon.Step{{At: "cEl", Occ: 1, Kind: mon.Gate, Until: "inject-done", UntilCount: 1, Timeout: 5 * time.Second}}
 	}
-	rig := mon.NewRig(mon.RigOpts{Mode: cell.mode, Queue: 4, NoPark: true, Handlers: hs, Plan: plan})
+	opts := mon.RigOpts{Mode: cell.mode, Queue: 4, NoPark: true, Handlers: hs, Plan: plan}
+	if cell.state == "open-parent-context-ended" {
+		// the parent context ends while the read loop is parked in Read: the channel stays open
+		// (IsActive, writes still reach the transport) and the guarantees still apply
+		pctx, cancel := context.WithCancel(context.Background())
+		opts.Ctx = pctx
+		defer cancel()
+	}
+	rig := mon.NewRig(opts)
 	return rig, probes, excs, in, arm
 }
 
@@ -534,6 +546,9 @@ func c07Run(c *core.Ctx, id string, cell c07Cell) {
 			viol("inactive-carries-other-error", fmt.Sprintf("the channel was closed because of the unconsumed exception but inactive carried %v", inact[0]))
 		}
 		return
+	}
+	if cell.state == "open-parent-context-ended" {
+		return // the read loop will close the channel as soon as it comes around: usability is not required
 	}
 	// consumed: channel must stay usable (unless the documented non-timeout net.Error close applied)
 	if cell.val == 4 && !rig.Ch.IsActive() {
